@@ -424,4 +424,8 @@ func init() {
 		Old:    "\t\tok := j.SessionType.isContractive(labelledTypesEnv, make(map[string]bool))",
 		New:    "\t\tif _, isName := j.SessionType.(*LabelType); !isName {\n\t\t\tbreak\n\t\t}\n\t\tok := j.SessionType.isContractive(labelledTypesEnv, make(map[string]bool))",
 		Expect: "contractivity-checked"})
+	addFixture(Fixture{Name: "lock-kept-on-an-early-return", Rule: "R-LOCK-PAIRED", File: "process/runtime.go",
+		Old:    "\tre.processCount = 0\n\tre.deadProcessCount = 0\n",
+		New:    "\tvar mu sync.Mutex\n\tmu.Lock()\n\tif len(processes) == 0 {\n\t\treturn re\n\t}\n\tmu.Unlock()\n\tre.processCount = 0\n\tre.deadProcessCount = 0\n",
+		Expect: "process.InitializeProcesses | Lock#"})
 }
